@@ -27,6 +27,15 @@ pub fn last_panic_file() -> String {
     })
 }
 
+/// Keep freed memory in the process (falcon allocates and frees 48 KiB pages at a high rate; giving
+/// them back to the kernel each time dominated the run time).
+pub fn tune_malloc() {
+    unsafe {
+        libc::mallopt(libc::M_TRIM_THRESHOLD, 1 << 30);
+        libc::mallopt(libc::M_MMAP_THRESHOLD, 1 << 30);
+    }
+}
+
 pub fn limit_memory(bytes: u64) {
     if bytes == 0 {
         return;
